@@ -312,6 +312,19 @@ class C09(Prop):
                 acc.violation(f"success-flag-wrong:{name}", f"{tag}: successful={rec.value.successful}, last reply had {len(last)} bytes, "
                               f"response holds {len(raw or b'')} bytes", {"last_reply": last.hex()[:200]})
             acc.count("responses_returned")
+            import copy
+            import pickle
+
+            for how, dup in (("copy.copy", copy.copy), ("copy.deepcopy", copy.deepcopy), ("pickle round trip", lambda o: pickle.loads(pickle.dumps(o)))):
+                acc.ev()
+                try:
+                    d_ = dup(rec.value)
+                except Exception:
+                    acc.count("responses_not_duplicable_that_way")
+                    continue
+                if bool(d_.successful) != (len(last) > 0):
+                    acc.violation(f"success-flag-wrong:{name}:copy", f"{tag}: a {how} of the returned response reports successful={d_.successful}, the last reply had {len(last)} bytes",
+                                  {"how": how})
         elif rec.outcome == "raise":
             acc.count(f"raised_{type(exc).__name__}")
         # 3. empty login reply: state queries and all type-2 operations raise RuntimeError, nothing further is sent
